@@ -21,7 +21,7 @@ Lbl(ids, tag, ok) == IF ok THEN {} ELSE {<<id, tag, l>> : id \in ids}
 Range(q) == {q[i] : i \in DOMAIN q}
 
 Cov0 == [scn |-> 0, cmd |-> 0, out |-> 0, bigout |-> 0, res |-> 0, fail |-> 0, sig |-> 0,
-         intr |-> 0, end |-> 0, fdprobe |-> 0, rsp |-> 0, parallel |-> 0, pty |-> 0, eq |-> 0]
+         intr |-> 0, end |-> 0, fdprobe |-> 0, rsp |-> 0, parallel |-> 0, pty |-> 0, eq |-> 0, con |-> 0]
 Bump(c, f) == [c EXCEPT ![f] = @ + 1]
 BumpIf(c, f, b) == IF b THEN Bump(c, f) ELSE c
 
@@ -55,6 +55,81 @@ End(ev) ==
   \cup Lbl({"C16"}, "ran-after-interrupt", ev.afterintr = <<>>)
   \cup Lbl({"C16"}, "ran-set", Range(ev.ran) = Range(ev.wantran))
 
+---------------------------------------------------------------------------
+\* The console protocol (progress_dumb.rs): what n2 prints on a plain (non-tty) stdout, as a
+\* state machine over the items the output is made of.  The engine cuts the captured bytes
+\* into items lexically — a known message line <<"msg", s>>, <<"failed", s>>, <<"intr", s>>, a
+\* run of payload tokens of one command <<"pay", s, from, to, tail>>, a termination note
+\* <<"note", text>>, the summary <<"sum", kind, n>>, an error line <<"err", text>>, anything else
+\* <<"other", text>> — and this machine decides whether the sequence is one n2 may print:
+\*   task_started:  the message of s (description, or the command line if there is none or -v)
+\*   task_finished: success with output (and not hide_success): the message again unless s was
+\*                  the last one started, then every byte of the output, once, in one piece;
+\*                  failure: "failed: <message>", then the output (with the note for a signal);
+\*                  interruption: "interrupted: <message>", then the output
+\*   the summary is the last thing printed, and only by a successful invocation.
+\* S: step name -> [want, ntok, tail, note, hide, free].
+ConInit == [started |-> {}, paid |-> {}, hdr |-> "", last |-> "", prev |-> "", sum |-> FALSE,
+            sumv |-> <<"none", 0>>, bad |-> {}]
+HasOut(S, s) == S[s].ntok > 0 \/ S[s].tail > 0
+ConBad(c, tag) == [c EXCEPT !.bad = @ \cup {tag}, !.hdr = "", !.prev = ""]
+ConItem(c0, it, S) ==
+  LET c == IF c0.sum THEN [c0 EXCEPT !.bad = @ \cup {"console-after-summary"}] ELSE c0
+      kind == it[1]
+      s == it[2]
+      known == s \in DOMAIN S
+      open == known /\ s \in c.started /\ s \notin c.paid
+      \* (with -v the line task_started prints, the command, differs from the message repeated
+      \* before the output, item "hdr"; otherwise both are the same text and arrive as "msg")
+  IN CASE kind \in {"msg", "hdr"} ->
+            IF ~known THEN ConBad(c, "console-message")
+            ELSE IF s \notin c.started /\ kind = "msg"
+              THEN [c EXCEPT !.started = @ \cup {s}, !.last = s, !.hdr = "", !.prev = ""]
+            ELSE IF open /\ c.last # s /\ S[s].want = "ok" /\ HasOut(S, s) /\ c.hdr = ""
+              \* (hide_success suppresses the output, not the message that precedes it)
+              THEN IF S[s].hide THEN [c EXCEPT !.paid = @ \cup {s}, !.prev = ""]
+                   ELSE [c EXCEPT !.hdr = s, !.prev = ""]
+            ELSE ConBad(c, "console-message")
+       [] kind \in {"failed", "intr"} ->
+            IF open /\ c.hdr = "" /\ S[s].want = (IF kind = "failed" THEN "fail" ELSE "intr")
+              THEN [c EXCEPT !.hdr = IF HasOut(S, s) THEN s ELSE "", !.prev = s,
+                             !.paid = IF HasOut(S, s) THEN @ ELSE @ \cup {s}]
+              ELSE ConBad(c, "console-failure-line")
+       [] kind = "pay" ->
+            IF /\ open /\ HasOut(S, s) /\ ~(S[s].hide /\ S[s].want = "ok")
+               /\ (c.hdr = s \/ (c.hdr = "" /\ c.last = s /\ S[s].want = "ok"))
+               /\ <<it[3], it[4], it[5]>> = <<0, S[s].ntok - 1, S[s].tail>>
+              THEN [c EXCEPT !.paid = @ \cup {s}, !.hdr = "", !.prev = s]
+              ELSE ConBad(c, "console-output-misplaced")
+       [] kind = "note" ->
+            IF c.prev # "" /\ c.hdr = "" /\ S[c.prev].note = s THEN [c EXCEPT !.prev = ""]
+            ELSE ConBad(c, "console-note")
+       [] kind = "sum" -> [c EXCEPT !.sum = TRUE, !.sumv = <<it[2], it[3]>>, !.bad = IF c.hdr = "" THEN @ ELSE @ \cup {"console-output-missing"}]
+       [] kind = "err" -> [c EXCEPT !.prev = ""]
+       \* text n2 itself puts in place of a failed command's output (e.g. a depfile parse error)
+       [] kind = "other" /\ c.prev # "" /\ S[c.prev].free /\ S[c.prev].want = "fail" -> c
+       [] OTHER -> ConBad(c, "console-foreign-text")
+
+RECURSIVE ConFold(_, _, _, _)
+ConFold(c, items, i, S) == IF i > Len(items) THEN c ELSE ConFold(ConItem(c, items[i], S), items, i + 1, S)
+
+Con(ev) ==
+  LET S == ev.steps
+      c == ConFold(ConInit, ev.items, 1, S)
+      ran == Range(ev.ran)
+      \* every command that ran was announced; every one that printed something (and may show
+      \* it) had its output shown
+      owed == {s \in ran : HasOut(S, s) /\ ~(S[s].hide /\ S[s].want = "ok")}
+      payTags == {"console-output-misplaced", "console-output-missing"}
+      nok == Cardinality({s \in ran : S[s].want = "ok"})
+  IN Lbl({"C16"}, "console-output", c.bad \cap payTags = {} /\ owed \subseteq c.paid /\ c.hdr = "")
+     \cup Lbl({"C19"}, "console-summary",
+            ev.exit = 0 => /\ c.sum
+                           /\ c.sumv = (IF nok = 0 THEN <<"nowork", 0>> ELSE <<"ran", nok>>))
+     \cup Lbl({"CONF"}, "console-summary-on-failure", c.sum => ev.exit = 0)
+     \cup UNION {Lbl({"CONF"}, tag, FALSE) : tag \in c.bad \ payTags}
+     \cup Lbl({"CONF"}, "console-unannounced", ran \subseteq c.started)
+
 \* Two runs that must not differ (pty vs pipe; -C vs cd).
 Eq(ev) ==
   Lbl(Range(ev.props), ev.tag, ev.a = ev.b)
@@ -74,6 +149,8 @@ Step ==
                                         "sig", ev.wantnote # ""), "intr", ev.want = "intr")
        [] ev.e = "xend" -> /\ viol' = viol \cup End(ev)
                            /\ cov' = BumpIf(Bump(cov, "end"), "parallel", ev.j > 1)
+       [] ev.e = "xcon" -> /\ viol' = viol \cup Con(ev)
+                           /\ cov' = Bump(cov, "con")
        [] ev.e = "xeq"  -> /\ viol' = viol \cup Eq(ev)
                            /\ cov' = BumpIf(Bump(cov, "eq"), "pty", ev.tag = "pty-isolation")
        [] OTHER -> viol' = viol /\ cov' = cov
